@@ -146,6 +146,40 @@ def make_api(it, session: Session):
             return it.path.decide(v.t, "split")
         return v
 
+    @reg("run_slice")
+    def run_slice(it_, a, k):
+        """run_slice(module, qualname, if_test, env, keep, capture_calls=(), nth=0) -> dict(env after, '__tests__': [...], '__captured__': [...])"""
+        import ast as _ast
+        from . import slices
+        module, qualname, if_test, env0, keep = a[0], a[1], a[2], a[3], a[4]
+        capture = tuple(k.get("capture_calls", ()))
+        nth = k.get("nth", 0)
+        m = it.import_module(module)
+        with open(it.sources[module]) as f:
+            tree = _ast.parse(f.read())
+        body = slices.select(tree, qualname, if_test, nth)
+        items = slices.keep_statements(body, set(it.iterate(keep)), capture)
+        vars_ = {kk: vv for kk, vv in it.dict_items(env0)}
+        env = Env(vars_, None, m.ns)
+        tests, captured = [], []
+        for kind, node in items:
+            if kind == "stmt":
+                it.exec_stmt(node, env)
+            else:
+                # tests / captured values that need dropped context (ParseResults tokens) are recorded as None
+                try:
+                    v = it.eval(node, env)
+                except (PyRaise, Unsupported):
+                    v = None
+                (tests if kind == "test" else captured).append(v)
+        out = DictV()
+        for kk, vv in vars_.items():
+            it.dict_set(out, kk, vv)
+        it.dict_set(out, "__tests__", tests)
+        it.dict_set(out, "__captured__", captured)
+        it.dict_set(out, "__n_statements__", len([1 for kind, _ in items if kind == "stmt"]))
+        return out
+
     @reg("all_of")
     def all_of(it_, a, k):
         return it.b_all(a, k)
